@@ -32,6 +32,12 @@ def npsort(self, e, st, spec):
     if spec:
         return NotImplemented
     kw = {k.arg: k.value for k in e.keywords}
+    if name == "np.average" and len(e.args) == 1 and not kw:
+        # np.average(xs) without weights is np.mean(xs)
+        e2 = ast.copy_location(ast.Call(func=ast.Attribute(value=ast.Name(id="np", ctx=ast.Load()), attr="mean", ctx=ast.Load()),
+                                        args=e.args, keywords=[]), e)
+        ast.fix_missing_locations(e2)
+        return self.ev(e2, st, spec)
     if name == "np.array" and len(e.args) == 1 and set(kw) == {"dtype"} and ast.unparse(kw["dtype"]) == "str":
         v = self.ev(e.args[0], st, spec)
         if isinstance(v, SList) and len(v.elems.cs) == 1 and v.elems.cs[0].sort().range() == R:
